@@ -75,6 +75,17 @@ def first_step_mfpt(n, T, m, sinks, lag):
     return obs
 
 
+def first_step_mfpt_margin(n, T, m, sinks, lag):
+    """clear-cut region of a violated first-step equation (tried first when looking for a refuting model, so that the replay is
+    not lost in its float tolerance): some equation is off by more than 1% of a lag time"""
+    oth = [i for i in range(n) if i not in sinks]
+    alts = []
+    for i in oth:
+        rhs = lag + sum([T[i][j] * m[j] for j in range(1, n)], T[i][0] * m[0])
+        alts += [m[i] - rhs > lag / 100, rhs - m[i] > lag / 100]
+    return sor(*alts) if alts else None
+
+
 def fl(x):
     return float(x)
 
@@ -233,6 +244,11 @@ def mfpt_job(n, sinks=None, zero_pattern=None, given_pops=True, layout='C', cont
         A0 = A.copy()
         arg = as_container(A, container)
         P = funcs.np_array(pi, dtype=float) if pi is not None else None
+        if not given_pops:
+            # populations=None: mfpts computes them itself (eigen-decomposition = Perron contract of the eig stub)
+            from symnp import stubs as _st
+            _st.EIG_CONTRACT[0] = _st.perron_contract
+            P = None
         exc = None
         try:
             if sinks is None:
@@ -261,7 +277,7 @@ def mfpt_job(n, sinks=None, zero_pattern=None, given_pops=True, layout='C', cont
             out = {'inputs': {'tprob': Tc, 'sinks': list(sinks) if sinks is not None else None, 'lagtime': lc, 'memory_layout': layout,
                               'container': container or 'ndarray'}}
             Ac = as_container(lay(np.array(Tc), layout), container)
-            pc = np.array([fl(ev(model, p)) for p in pi]) if pi is not None else None
+            pc = np.array([fl(ev(model, p)) for p in pi]) if (pi is not None and given_pops) else None
             if pc is not None:
                 out['inputs']['populations'] = pc.tolist()
             with core.concrete_mode():
@@ -288,7 +304,19 @@ def mfpt_job(n, sinks=None, zero_pattern=None, given_pops=True, layout='C', cont
                            desc='raises %s: %s' % (type(exc).__name__, str(exc)[:100]))
         obs = oracle(T, lag, Ml if sinks is None else ml)
         obs.append(('transition-matrix-unmodified', unchanged(arg, A0)))
-        return PathOut(obs, {'mfpts': M if sinks is None else m}, witness, desc='mfpts n=%d sinks=%s %s' % (n, sinks, container or ''))
+        po = PathOut(obs, {'mfpts': M if sinks is None else m}, witness, desc='mfpts n=%d sinks=%s %s' % (n, sinks, container or ''))
+        hints = {}
+        if sinks is None:
+            for j in range(n):
+                h = first_step_mfpt_margin(n, T, [Ml[i][j] for i in range(n)], [j], lag)
+                if h is not None:
+                    hints['all-pairs column %d = single sink {%d}: one-lag-plus-weighted-average-elsewhere' % (j, j)] = h
+        else:
+            h = first_step_mfpt_margin(n, T, ml, sinks, lag)
+            if h is not None:
+                hints['one-lag-plus-weighted-average-elsewhere'] = h
+        po.refute_hints = hints
+        return po
     return path
 
 
